@@ -885,6 +885,12 @@ class Gen:
         regs = b.avail(ty)
         cands = self.consts_for(ty)
         x = r.random()
+        if not self.distinct and (regs or cands) and ty.startswith(("fld:", "pt:")) and \
+                r.random() < 0.05:
+            # an equal argument made another way: a copy of something the caller holds
+            src = {"reg": r.choice(regs)} if regs and (not cands or r.random() < 0.6) \
+                else r.choice(cands)
+            return {"copy": src, "how": r.choice(["copy", "deepcopy", "deepcopy", "pickle"])}
         if self.distinct:
             # soak: a fresh distinct value nearly always
             if cands and x < 0.06:
@@ -940,6 +946,9 @@ class Gen:
     def _arg_bytes(self, b, ty):
         r = self.rng
         kind = ty[2:]
+        if not self.distinct and r.random() < 0.025:
+            # not bytes at all: the call raises somewhere inside (error paths)
+            return lit(r.choice([["str", "correct horse"], None, 7, ["list", [1, 2, 3]]]))
         regs = b.avail(ty)
         if regs and r.random() < 0.45:
             return {"reg": r.choice(regs)}
@@ -1322,6 +1331,11 @@ FAULT_KINDS = [("SimInterrupt", 40), ("KeyboardInterrupt", 20), ("MemoryError", 
 COST_CLASS = {"light": (25, 150), "medium": (140, 800), "heavy": (2000, 2600)}
 
 
+def _spec_regs(op):
+    from .ops import op_regs
+    return op_regs(op)
+
+
 def _real_ops(ops):
     return [i for i, op in enumerate(ops) if "pseudo" not in op]
 
@@ -1511,12 +1525,22 @@ class Scenarios(Gen):
         ntasks = 2 if tpl.cost > 100 else r.choice([2, 2, 3])
         targets = []
         shared = None
+        used_shared = False
+        pre_own = set()      # registers produced inside a task (not visible to the other tasks)
         for ti in range(ntasks):
             b = Builder(self, parent=pre)
-            op = b.emit(tpl)
-            if shared is not None and r.random() < 0.3:
-                # same argument objects in two callers (prelude registers / consts only)
-                pass
+            if shared is not None and r.random() < (0.5 if faults else 0.3) and \
+                    not any(x in pre_own for x in _spec_regs(shared)):
+                used_shared = True
+                # the very same call (equal arguments) made by two callers at once:
+                # callers that share work, wait for each other, or race for one slot
+                op = {k_: v_ for k_, v_ in shared.items() if k_ != "out"}
+                if tpl.out:
+                    op["out"] = b.new_reg(tpl.out)
+                b.ops.append(op)
+            else:
+                op = b.emit(tpl)
+                pre_own.update(o_["out"] for o_ in b.ops if o_.get("out"))
             shared = op
             k1 = len(b.ops) - 1
             targets.append((ti, k1))
@@ -1531,6 +1555,13 @@ class Scenarios(Gen):
         self.plan_storm(spec, targets, lo=6, hi=40)
         if faults:
             self.plan_faults(spec, nf=r.choice([1, 2]), include_prelude=False)
+            if used_shared and not any(f["task"] == targets[0][0] and f["op"] == targets[0][1]
+                                       for f in spec["faults"]):
+                # the caller that everybody else may be waiting for is the one interrupted
+                spec["faults"].append({"kind": "async_exc", "task": targets[0][0],
+                                       "op": targets[0][1], "frac": 0.1 + 0.85 * r.random(),
+                                       "exc": r.choice(["SimInterrupt", "KeyboardInterrupt",
+                                                        "MemoryError", "TimeoutError"])})
         return spec
 
     def owned_args(self, b, tpl, op1):
@@ -1995,6 +2026,77 @@ class Scenarios(Gen):
             spec["tasks"] = [ops[cut:]]
         else:
             spec["tasks"] = [ops]
+        if faults:
+            self.plan_faults(spec, nf=1, include_prelude=False)
+        return spec
+
+    def scn_reentrant(self, faults=False):
+        """user suites whose hooks (an overridden _is_valid_message, a plugged-in
+        hash function) call into the library themselves: a nested library call on the
+        same thread while an outer one is in progress; afterwards ordinary calls in
+        all suites, compared with the history-free model as always"""
+        r = self.rng
+        spec = self.new_spec("reentrant")
+        ks = r.sample(range(len(SKS)), 2)
+        j = r.randrange(3)
+        m = B(MSGS[j])
+        pks = [self.pool_pk(k) for k in ks]
+        sigs = [self.pool_sig("G2ProofOfPossession", k, j) for k in ks]
+        if any(v is None for v in pks + sigs):
+            return self.scn_usersuites(faults)
+        agg = self.gold_value(["c", "suite.G2ProofOfPossession", "Aggregate"], [["list", sigs]])
+        sig0 = self.pool_sig("G2Basic", ks[0], j)
+        if agg is None or sig0 is None:
+            return self.scn_usersuites(faults)
+        nested_fav = {"fn": ["c", "suite.G2ProofOfPossession", "FastAggregateVerify"],
+                      "args": [["list", pks], m, agg]}
+        nested_ver = {"fn": ["c", "suite.G2Basic", "Verify"], "args": [pks[0], m, sig0]}
+        nested_xmd = {"fn": ["f", BHASH, "expand_message_xmd"],
+                      "args": [B(b"inner"), B(b"INNER-DST"), 48, HASHFNS[0]]}
+        nested_h2c = {"fn": ["f", BH2C, "hash_to_G2"], "args": [B(b"inner"), B(b"INNER-DST"),
+                                                                HASHFNS[0]]}
+        spec["adhoc_classes"] += [
+            {"name": "RS1", "base": "suite.G2ProofOfPossession", "attrs": {},
+             "hooks": {"_is_valid_message": r.choice([nested_fav, nested_fav, nested_ver])}},
+            {"name": "RS2", "base": "suite.G2Basic", "attrs": {},
+             "hooks": {"_is_valid_signature": r.choice([nested_ver, nested_fav, nested_h2c])}},
+            {"name": "RS3", "base": "suite.G2Basic", "attrs": {},
+             "hooks": {"xmd_hash_function": r.choice([nested_xmd, nested_h2c])}},
+        ]
+        sk = lit(SKS[ks[0]])
+        ops = []
+
+        def o(cls, meth, args, out=False):
+            d = {"fn": ["c", cls, meth], "args": args, "kind": "reentrant." + meth}
+            if out:
+                d["out"] = self.fresh_reg()
+            ops.append(d)
+            return d
+        plist = {"list": [lit(p) for p in pks]}
+        outer = [
+            lambda: o("adhoc.RS1", "FastAggregateVerify", [plist, lit(m), lit(agg)]),
+            lambda: o("adhoc.RS1", "Verify", [lit(pks[0]), lit(m), lit(sigs[0])]),
+            lambda: o("adhoc.RS2", "Verify", [lit(pks[0]), lit(m), lit(sig0)]),
+            lambda: o("adhoc.RS3", "Sign", [sk, lit(m)], out=True),
+            lambda: o("adhoc.RS2", "Sign", [sk, lit(m)], out=True),
+        ]
+        r.shuffle(outer)
+        for f in outer[: r.randint(2, 5)]:
+            f()
+        # afterwards: ordinary calls everywhere, among them keys that only the
+        # subgroup / curve checks reject
+        raw = bytearray(bytes.fromhex(pks[0][1]))
+        for _ in range(4):
+            q = bytearray(raw)
+            q[r.randrange(1, 48)] ^= 1 << r.randrange(8)
+            o(r.choice(["suite.G2Basic", "suite.G2ProofOfPossession",
+                        "suite.G2MessageAugmentation"]), "KeyValidate", [lit(B(q))])
+        o("suite.G2ProofOfPossession", "FastAggregateVerify", [plist, lit(m), lit(agg)])
+        o("suite.G2Basic", "Verify", [lit(pks[0]), lit(m), lit(sig0)])
+        o("suite.G2Basic", "Verify", [lit(self.INF_PK), lit(m), lit(self.INF_SIG)])
+        o("suite.G2Basic", "Sign", [sk, lit(m)], out=True)
+        o("suite.G2Basic", "KeyValidate", [lit(pks[1])])
+        spec["tasks"] = [ops]
         if faults:
             self.plan_faults(spec, nf=1, include_prelude=False)
         return spec
